@@ -318,6 +318,23 @@ unsafe fn may_fail_alloc_zeroed(layout: Layout) -> *mut u8 {
 }
 
 
+/// Contract-level model of `GlobalAlloc::realloc`: either null (the old block stays valid and
+/// untouched), or a block of the new size holding the old contents up to the smaller of the two
+/// sizes (the rest uninitialised), the old block freed.  Counted as a request like any other.
+unsafe fn may_fail_realloc(ptr: *mut u8, layout: Layout, new_size: usize) -> *mut u8 {
+    if refuse_now() {
+        std::ptr::null_mut()
+    } else {
+        let new_layout = Layout::from_size_align_unchecked(new_size, layout.align());
+        let p = alloc(new_layout);
+        kani::assume(!p.is_null());
+        let n = if layout.size() < new_size { layout.size() } else { new_size };
+        std::ptr::copy_nonoverlapping(ptr, p, n);
+        std::alloc::dealloc(ptr, layout);
+        p
+    }
+}
+
 /// Native replay only (ignored by Kani, which models the allocator itself): a real global
 /// allocator whose `alloc_zeroed` fails exactly when the harness says so, so that the verifier's
 /// counterexample can be replayed against the real code outside the model checker.
@@ -334,6 +351,13 @@ unsafe impl std::alloc::GlobalAlloc for ReplayAlloc {
             std::ptr::null_mut()
         } else {
             std::alloc::System.alloc_zeroed(layout)
+        }
+    }
+    unsafe fn realloc(&self, p: *mut u8, layout: Layout, new_size: usize) -> *mut u8 {
+        if refuse_now() {
+            std::ptr::null_mut()
+        } else {
+            std::alloc::System.realloc(p, layout, new_size)
         }
     }
 }
@@ -392,6 +416,7 @@ macro_rules! oom_widths {
         #[kani::proof]
         #[kani::unwind($unwind)]
         #[kani::stub(std::alloc::alloc_zeroed, may_fail_alloc_zeroed)]
+        #[kani::stub(std::alloc::realloc, may_fail_realloc)]
         #[kani::stub(std::alloc::handle_alloc_error, alloc_error_aborts)]
         fn $h8() {
             $body::<u8>();
@@ -399,6 +424,7 @@ macro_rules! oom_widths {
         #[kani::proof]
         #[kani::unwind($unwind)]
         #[kani::stub(std::alloc::alloc_zeroed, may_fail_alloc_zeroed)]
+        #[kani::stub(std::alloc::realloc, may_fail_realloc)]
         #[kani::stub(std::alloc::handle_alloc_error, alloc_error_aborts)]
         fn $h64() {
             $body::<u64>();
